@@ -1,10 +1,30 @@
 #!/bin/sh
 # usage: ./run.sh Cxx quick|thorough     (cwd=/verif)
 # Decides property Cxx from the current working tree of /repo by static analysis.
+#   quick    : the property's packages, all rules.
+#   thorough : whole-module load (./..., every package type-checked from source), all rules plus module-wide rules,
+#              then the sensitivity self-test (every stored mutant / seeded change of the property must be reported in a
+#              scratch worktree). Exit 1 + VIOLATION line only for findings on /repo; a missed mutant exits 3 (check broken).
 cd "$(dirname "$0")" || exit 2
 . ./env.sh
 REPO="${VERIF_REPO:-/repo}"
 if [ ! -x bin/dsv ] || [ -n "$(find cmd internal go.mod -newer bin/dsv -print -quit 2>/dev/null)" ]; then
   ./setup.sh || exit 2
 fi
-exec bin/dsv -property "$1" -tier "${2:-quick}" -repo "$REPO" -verif "$(pwd)" ${VERIF_OUT:+-out "$VERIF_OUT"}
+TIER="${2:-quick}"
+bin/dsv -property "$1" -tier "$TIER" -repo "$REPO" -verif "$(pwd)" ${VERIF_OUT:+-out "$VERIF_OUT"}
+rc=$?
+if [ "$TIER" = thorough ] && [ $rc -eq 0 ] && [ -z "${VERIF_NO_SELFTEST:-}" ] && [ "$REPO" = /repo ]; then
+  out=$(VERIF_SELFTEST=1 tools/selftest.sh "$1" 2>&1); src=$?
+  echo "$out" | sed 's/^/  selftest: /'
+  det=$(echo "$out" | grep -c '^detected'); skip=$(echo "$out" | grep -c '^SKIPPED'); miss=$(echo "$out" | grep -c '^MISSED')
+  # record the self-test in the evidence file
+  if [ -f "evidence/$1.json" ] && command -v jq >/dev/null 2>&1; then
+    tmp=$(mktemp) && jq --argjson d "$det" --argjson s "$skip" --argjson m "$miss" '.coverage.selftest = {mutants_detected: $d, mutants_skipped: $s, mutants_missed: $m}' "evidence/$1.json" > "$tmp" && mv "$tmp" "evidence/$1.json"
+  fi
+  if [ $miss -gt 0 ]; then
+    echo "SELFTEST-BROKEN property=$1: $miss stored mutant(s) are no longer reported by the check (check is broken, not /repo)"
+    exit 3
+  fi
+fi
+exit $rc
